@@ -285,6 +285,9 @@ def restart_target(uid, d2='X', *, dk=0, kind='ok'):
     """C17 probe target: echoes the unique id, the second default positional and the default keyword."""
     if kind == 'raise':
         raise CustomError('boom', uid)
+    if kind == 'raise2':
+        # an exception that is picklable in the child but cannot be rebuilt in the parent (two-argument constructor)
+        raise TwoArgError(uid, 'reason')
     if kind == 'slow':
         time.sleep(0.4)
     if kind == 'slowbox':
